@@ -36,7 +36,7 @@ def core(x):
         if not isinstance(x, dict):
             return x
         k = x.get('k')
-        if k in ('paramof', 'local', 'icast', 'cast', 'move', 'defarg'):
+        if k in ('paramof', 'local', 'icast', 'cast', 'move', 'defarg', 'retof'):
             x = x.get('e')
         elif k == 'ctor' and x.get('copy') and len(x.get('args', [])) == 1:
             x = x['args'][0]
